@@ -4,6 +4,7 @@
 From Coq Require Import List NArith Bool.
 From Coq Require Import Strings.Byte.
 From GoBT Require Import lib.Bytes lib.VarInt model.Tx gen.Consts spec.FeeSpec model.Fees proofs.FeesProofs proofs.AuditC11.
+From GoBT Require Import model.QuoteHeap proofs.QuoteHeapProofs.
 From GoBT Require proofs.OrdProofs.
 Import ListNotations.
 Local Open Scope N_scope.
@@ -232,3 +233,44 @@ Theorem C11_no_mutable_package_state :
   StateInventory.rg_mutated g = false /\ StateInventory.rg_escapes g = false.
 Proof. apply StateInventory.pkg_state_ok_spec. vm_compute. reflexivity. Qed.
 Print Assumptions C11_no_mutable_package_state.
+
+(** ** Quotes as objects (model/QuoteHeap.v): the fee computed from a quote depends on that quote only.
+    A history is a list of operations over the pool of FeeQuote objects the library has handed out: [HNew] (NewFeeQuote()),
+    [HAdd] (AddQuote with a Fee of the caller, or nil), [HEditMining] / [HEditRelay] (a write through the *Fee that
+    [FeeQuote.Fee] hands out), [HShare] (the caller registers the Fee object of one quote in a quote), [HFees] (fees are
+    computed).  [view st b] is quote [b] as the value every theorem above computes fees from.  [local o] excludes only
+    an [HShare] from one quote into ANOTHER one: the caller sharing an object itself. *)
+
+(** After any history [before], any further history [after] that is not applied to quote [b] leaves what [b] says - and
+    with it EstimateFeesPaid, IsFeePaidEnough, EstimateIsFeePaidEnough computed from it - exactly as it was: editing the
+    rates of one quote in place never changes another quote the library handed out, older or newer. *)
+Theorem C11_quote_history_independent : forall before after b,
+  Forall local (before ++ after) ->
+  (b < length (qs_quotes (run empty_state before)))%nat ->
+  Forall (fun o => target o <> Some b) after ->
+  view (run empty_state (before ++ after)) b = view (run empty_state before) b.
+Proof. exact history_independent. Qed.
+Print Assumptions C11_quote_history_independent.
+
+(** A quote built by NewFeeQuote() says the documented defaults (regenerated from fees.go into gen/Consts.v) whatever
+    was done to the quotes built before it, and keeps saying them whatever is done to the other quotes afterwards. *)
+Theorem C11_default_quote_stays_default : forall before after,
+  Forall local (before ++ HNew :: after) ->
+  let b := length (qs_quotes (run empty_state before)) in
+  Forall (fun o => target o <> Some b) after ->
+  view (run empty_state (before ++ HNew :: after)) b = default_quote.
+Proof. exact default_quote_stays_default. Qed.
+Print Assumptions C11_default_quote_stays_default.
+
+(** non-vacuity: build A and B, edit A's standard and data mining fee in place, build C - B and C say the defaults, A
+    what it was given; and the hypothesis [local] is needed (the model follows pointers: after the caller registered A's
+    Fee object in B an edit through A is an edit of B) *)
+Example C11_quote_history_example :
+  let st := run empty_state ex_history in
+  view st 0 = mkQuote (Some (mkRate 50 100)) (Some (mkRate 25 100)) /\
+  view st 1 = default_quote /\ view st 2 = default_quote /\ Forall local ex_history.
+Proof. exact ex_history_views. Qed.
+Example C11_caller_made_sharing_is_followed :
+  view (run empty_state [HNew; HNew; HShare 1 true 0 true; HEditMining 0 true (mkRate 50 100)]) 1
+  = mkQuote (Some (mkRate 50 100)) (Some (mkRate default_data_fee_sat default_data_fee_bytes)).
+Proof. exact ex_caller_made_sharing. Qed.
